@@ -29,6 +29,10 @@ class NoneProperty(PropertyProtocol):
     _type_string: ClassVar[str] = "None"
     _json_type_string: ClassVar[str] = "None"
 
+    def get_instance_type_string(self) -> str:
+        """`None` is a value, the runtime type for `isinstance` checks is its type"""
+        return "type(None)"
+
     @classmethod
     def build(
         cls,
